@@ -13,6 +13,25 @@ import warnings
 from . import core
 from .core import fmt_float, parse_float, fmt_list, split_ne
 
+_core_fmt_float = fmt_float
+NAN_BITS = "f9221120237041090560"      # 0x7FF8000000000000: what Lean's Float.toBits prints for every NaN
+
+
+def fmt_float(x) -> str:  # noqa: F811  (NaN canonical; every other double by its bits, as core.fmt_float)
+    x = float(x)
+    return NAN_BITS if x != x else _core_fmt_float(x)
+
+
+def same_float(a, b) -> bool:
+    """equality of two doubles with nan == nan (statistics may legitimately be non-finite: `inf` deltas, see the comment in
+    `_maximization_step`)"""
+    return a == b or (a != a and b != b)
+
+
+def same_list(a, b) -> bool:
+    return len(a) == len(b) and all(same_float(x, y) for x, y in zip(a, b))
+
+
 PROP = "C05"
 LEAN = dict(
     props="LeaspyVerif.Props.C05",
@@ -94,10 +113,33 @@ def build_algo(AlgorithmSettings, algorithm_factory, n_iter, count, frac, power)
         return algorithm_factory(AlgorithmSettings("mcmc_saem", **kws))
 
 
-def run_stub(env, n_iter, count, frac, power, stats_seq, reconf=None):
+def _drive(algo, model, n_iter, copy_at=None):
+    """iterations 1..n_iter of the real `_maximization_step`; returns (algo, error class or 'ok', phase labels).
+    copy_at = (k, how): before iteration k the algorithm object is replaced by a deep copy / a pickle round trip of itself
+    (a checkpoint): the schedule must go on as if nothing had happened."""
+    import pickle
+    labels = []
+    try:
+        for k in range(1, n_iter + 1):
+            if copy_at is not None and copy_at[0] == k:
+                algo = copy.deepcopy(algo) if copy_at[1] == "deepcopy" else pickle.loads(pickle.dumps(algo))
+            algo.current_iteration = k
+            algo._maximization_step(model, None)
+            try:
+                labels.append(algo._get_progress_str())
+            except Exception as e:  # noqa
+                labels.append(f"<{type(e).__name__}>")
+    except Exception as e:  # noqa
+        return algo, f"err:other:{type(e).__name__}", labels
+    return algo, "ok", labels
+
+
+def run_stub(env, n_iter, count, frac, power, stats_seq, reconf=None, second=None, copy_at=None):
     """Drive the real algorithm object iteration by iteration with a stub model.
     `reconf` = (how, N): after construction the explicit count is changed through the documented `load_parameters`
-    ("load") or by assignment to `algo_parameters` ("assign"); the run must then follow N."""
+    ("load") or by assignment to `algo_parameters` ("assign"); the run must then follow N.
+    `second` = another sequence of statistics: the SAME algorithm object is then used for a second run (as a cross-validation
+    loop does); result under "second"."""
     torch, AlgorithmSettings, algorithm_factory, LAIE = env
     try:
         algo = build_algo(AlgorithmSettings, algorithm_factory, n_iter, count, frac, power)
@@ -111,13 +153,13 @@ def run_stub(env, n_iter, count, frac, power, stats_seq, reconf=None):
         return {"ctor": err_class(e, LAIE)}
     nb = algo.algo_parameters["n_burn_in_iter"]
     m = StubModel(torch, stats_seq)
-    try:
-        for k in range(1, n_iter + 1):
-            algo.current_iteration = k
-            algo._maximization_step(m, None)
-    except Exception as e:  # noqa
-        return {"ctor": "ok", "nb": nb, "run": f"err:other:{type(e).__name__}", "calls": m.calls}
-    return {"ctor": "ok", "nb": nb, "run": "ok", "calls": m.calls}
+    algo, out, labels = _drive(algo, m, n_iter, copy_at)
+    res = {"ctor": "ok", "nb": nb, "run": out, "calls": m.calls, "labels": labels}
+    if second is not None and out == "ok":
+        m2 = StubModel(torch, second)
+        algo, out2, labels2 = _drive(algo, m2, n_iter)
+        res["second"] = {"ctor": "ok", "nb": algo.algo_parameters["n_burn_in_iter"], "run": out2, "calls": m2.calls, "labels": labels2}
+    return res
 
 
 def predicate_failures(n_iter, count, frac, power, stats_seq, res):
@@ -147,22 +189,28 @@ def predicate_failures(n_iter, count, frac, power, stats_seq, res):
         fails.append(f"{len(calls)} maximisations for {n_iter} iterations")
         return fails
     S_prev = None
+    labels = res.get("labels") or []
     for k in range(1, n_iter + 1):
         S, flag = calls[k - 1]
         s = stats_seq[k - 1]
         if flag != (k <= nb):
             fails.append(f"iteration {k}: burn_in flag {flag}, memory-less phase is k<={nb}")
+        if k <= len(labels) and isinstance(labels[k - 1], str) and ("memory-less" in labels[k - 1]) != (k <= nb):
+            fails.append(f"iteration {k}: the algorithm reports its phase as {labels[k-1]!r}, memory-less phase is k<={nb}")
         if k <= nb + 1:
-            if S != s:
+            if not same_list(S, [float(x) for x in s]):
                 fails.append(f"iteration {k} (memory-less, nb={nb}): statistics used {S} != current {s}")
         else:
             e = float(k - nb) ** (-power)
             for j in range(len(s)):
                 want = (1 - e) * S_prev[j] + e * s[j]
-                if not math.isclose(S[j], want, rel_tol=1e-12, abs_tol=1e-12):
+                ok = (math.isclose(S[j], want, rel_tol=1e-12, abs_tol=1e-12) if math.isfinite(want) else same_float(S[j], want))
+                if not ok:
                     fails.append(f"iteration {k} (nb={nb}, power={power}): S={S[j]!r} but (1-e)S_prev+e*s={want!r}")
                     break
         S_prev = S
+        if len(fails) > 20:
+            break
     return fails
 
 
@@ -264,23 +312,148 @@ def stub_cases(chk):
     return cases
 
 
-# ------------------------------------------------------------------ real fits
-def real_fit_case(env, chk, model_name, n_iter, count, frac, power, seed):
-    """Real fit with call-through recording of s_k and S_k; property predicate + model comparison."""
+INF, NAN = float("inf"), float("nan")
+
+
+def gen_stats_nonfinite(rng, n, nb, dim=2):
+    """Statistics with `inf` / `-inf` / `nan` entries around the end of the memory-less phase and inside the phase with memory.
+    (The code keeps non-finite statistics on purpose — "enables to keep `inf` deltas" — and the reset iteration nb+1 must hand
+    over exactly the current statistics even when the kept ones are non-finite: 0 * inf would be nan.)"""
+    seq = gen_stats(rng, n, dim)
+    spots = [k for k in {nb - 1, nb, nb + 1, nb + 2, rng.randrange(1, n + 1)} if 1 <= k <= n]
+    rng.shuffle(spots)
+    for i, k in enumerate(spots):
+        if i == 0 or rng.random() < 0.6:
+            seq[k - 1][rng.randrange(dim)] = rng.choice([INF, -INF, NAN, INF])
+    return seq
+
+
+def nonfinite_cases(chk):
+    """(configuration, statistics, second-run statistics): every (n_iter<=N, explicit count 0..n) once, statistics with
+    non-finite entries; the same algorithm object is then run a second time on other statistics."""
+    rng = chk.rng
+    out = []
+    N = 12 if chk.tier == "thorough" else 8
+    for n in range(2, N + 1):
+        for nb in range(0, n + 1):
+            p = rng.choice([0.51, 0.8, 1.0])
+            out.append(((n, nb, None, p, gen_stats_nonfinite(rng, n, nb)),
+                        rng.choice([gen_stats(rng, n), gen_stats_nonfinite(rng, n, nb)])))
+    return out
+
+
+def long_cases(chk):
+    """Long phases with memory (thousands of averaged iterations: steps down to 4e-5) — a legitimate configuration the short
+    runs never reach; one statistic coordinate."""
+    rng = chk.rng
+    confs = [(rng.randrange(3200, 4200), rng.choice([0, 1, rng.randrange(2, 200)]), 1.0),
+             (rng.randrange(22000, 26000), rng.choice([0, rng.randrange(1, 300)]), 0.8),
+             (rng.randrange(5000, 7000), rng.randrange(0, 2000), 0.51)]
+    if chk.tier == "thorough":
+        confs += [(60000, rng.randrange(0, 5000), 0.8), (30000, rng.randrange(0, 3000), 1.0), (20000, 18000, 0.6)]
+    return [(n, nb, None, p, gen_stats(rng, n, 1)) for n, nb, p in confs]
+
+
+def jump_case(chk, env, n_iter, nb, power, ks, seq):
+    """The real algorithm object driven at a sparse increasing list of iterations `ks` (starting at 1): reaches the step sizes of
+    runs of 1e4..1e7 iterations (the documented default is 10000) without running them. Property predicate only."""
     torch, AlgorithmSettings, algorithm_factory, LAIE = env
-    import pandas as pd
-    from leaspy.io.data import Data
+    cj = {"kind": "jump", "n_iter": n_iter, "n_burn_in_iter": nb, "burn_in_step_power": power, "iterations": ks, "stats": seq}
+    key = ("jump", n_iter, nb, power, len(ks))
+    try:
+        algo = build_algo(AlgorithmSettings, algorithm_factory, n_iter, nb, None, power)
+    except Exception as e:  # noqa
+        chk.impl_failure(cj, f"valid configuration refused: {err_class(e, LAIE)}")
+        chk.case(key, nontrivial=True, tags={"kind": "stub-jump"})
+        return
+    m = StubModel(torch, seq)
+    err = None
+    try:
+        for k in ks:
+            algo.current_iteration = k
+            algo._maximization_step(m, None)
+    except Exception as e:  # noqa
+        err = type(e).__name__
+    if err is not None or len(m.calls) != len(ks):
+        chk.impl_failure(cj, f"run aborted after {len(m.calls)} of {len(ks)} maximisations: {err}")
+    S_prev = None
+    for (S, flag), s, k in zip(m.calls, seq, ks):
+        bad = None
+        if flag != (k <= nb):
+            bad = f"burn_in flag {flag}, memory-less phase is k<={nb}"
+        elif k <= nb + 1:
+            if not same_list(S, [float(x) for x in s]):
+                bad = f"memory-less (nb={nb}): statistics used {S} != current {s}"
+        else:
+            e = float(k - nb) ** (-power)
+            for j in range(len(s)):
+                want = (1 - e) * S_prev[j] + e * s[j]
+                # one product and one sum, each rounded once: 4 ulp of the larger magnitude (independent of |want|: cancellation)
+                tol = 1e-15 * (abs(S_prev[j]) + abs(s[j])) + 1e-300
+                if not (abs(S[j] - want) <= tol):
+                    bad = (f"with memory (nb={nb}, power={power}): S={S[j]!r} but (1-e)S_prev+e*s={want!r} with step e={e!r}, "
+                           f"S_prev={S_prev[j]!r}, s={s[j]!r}")
+                    break
+        if bad:
+            chk.impl_failure(cj, f"iteration {k}: {bad}")
+            break
+        S_prev = S
+    chk.case(key, nontrivial=True, tags={"kind": "stub-jump"})
+
+
+def jump_cases(chk):
+    rng = chk.rng
+    out = []
+    for i in range(12 if chk.tier == "thorough" else 5):
+        n_iter = rng.choice([10 ** 4, 10 ** 5, 10 ** 6, 10 ** 7])
+        nb = rng.choice([0, int(0.9 * n_iter), rng.randrange(0, n_iter // 2), 1])
+        power = rng.choice([0.51, 0.6, 0.8, 0.8, 1.0])
+        ks = {1, 2, nb - 1, nb, nb + 1, nb + 2, nb + 3, n_iter}
+        ks |= {nb + 10 ** j + rng.randrange(0, 3) for j in range(1, 8)}
+        ks |= {rng.randrange(1, n_iter + 1) for _ in range(6)}
+        ks = sorted(k for k in ks if 1 <= k <= n_iter)
+        out.append((n_iter, nb, power, ks, gen_stats(rng, len(ks), 2)))
+    return out
+
+
+# ------------------------------------------------------------------ real fits
+REAL_KINDS = {
+    # name: (factory name, mock cohort of api_common.cohort, number of individuals or None, hyper-parameters)
+    "logistic": ("logistic", "multi", None, dict(dimension=3, source_dimension=2)),
+    "linear": ("linear", "multi", None, dict(dimension=3, source_dimension=2)),
+    "logistic_scalar": ("logistic", "multi", None, dict(dimension=3, source_dimension=2, obs_models="gaussian-scalar")),
+    "univariate": ("logistic", "uni", None, dict(dimension=1)),
+    "joint": ("joint", "joint", 6, dict(source_dimension=1)),
+    "shared_speed": ("shared_speed_logistic", "multi", None, dict(source_dimension=1)),
+    "mixture": ("mixture_logistic", "multi", None, dict(dimension=3, source_dimension=2, n_clusters=2)),
+}
+
+
+def real_fit_case(env, chk, model_name, n_iter, count, frac, power, seed, opts=None):
+    """Real fit with call-through recording of s_k and S_k; property predicate + model comparison.
+    opts (all optional): annealing = dict given to the algorithm (annealing x memory-less phase), print_periodicity = int (the
+    output manager prints the algorithm and the model every so many iterations), via = "kwargs" | "settings" | "path" (keyword
+    arguments of `fit`, an `AlgorithmSettings` object, a settings file), second_run = True (one algorithm object, `run` twice)."""
+    torch, AlgorithmSettings, algorithm_factory, LAIE = env
+    import os
+    import tempfile
     from leaspy.models import model_factory
     from leaspy.utils.weighted_tensor import WeightedTensor
-    df = pd.read_csv(core.REPO / "tests/_data/data_mock/multivariate_data.csv")
-    data = Data.from_dataframe(df)
-    kw = dict(dimension=3)
-    if model_name != "linear_nosrc":
-        kw["source_dimension"] = 2
-    name = {"logistic": "logistic", "linear": "linear", "logistic_scalar": "logistic"}[model_name]
-    if model_name == "logistic_scalar":
-        kw["obs_models"] = "gaussian-scalar"
-    model = model_factory(name, **kw)
+    from . import api_common as A
+    opts = dict(opts or {})
+    factory_name, which, n_ind, kw = REAL_KINDS[model_name]
+    old_dtype = torch.get_default_dtype()
+    if opts.get("float64"):
+        torch.set_default_dtype(torch.float64)
+    try:
+        return _real_fit_case(env, chk, model_name, n_iter, count, frac, power, seed, opts,
+                              A.cohort(which, n_ind=n_ind)[1], model_factory(factory_name, **kw), WeightedTensor, os, tempfile)
+    finally:
+        torch.set_default_dtype(old_dtype)
+
+
+def _real_fit_case(env, chk, model_name, n_iter, count, frac, power, seed, opts, data, model, WeightedTensor, os, tempfile):
+    torch, AlgorithmSettings, algorithm_factory, LAIE = env
     rec_s, rec_S = [], []
     orig_css, orig_up = model.compute_sufficient_statistics, model.update_parameters
 
@@ -310,14 +483,58 @@ def real_fit_case(env, chk, model_name, n_iter, count, frac, power, seed):
     kws = dict(n_iter=n_iter, seed=seed, progress_bar=False, burn_in_step_power=power, n_burn_in_iter_frac=frac)
     if count is not None:
         kws["n_burn_in_iter"] = count
+    if opts.get("annealing"):
+        kws["annealing"] = dict(opts["annealing"])
     case = {"kind": "fit", "model": model_name, "n_iter": n_iter, "n_burn_in_iter": count,
             "n_burn_in_iter_frac": frac, "burn_in_step_power": power, "seed": seed}
+    if opts:
+        case["opts"] = opts
+    via = opts.get("via", "kwargs")
+    pp = opts.get("print_periodicity")
+    logs = {}
+    if pp:
+        # the output manager prints only when a logs folder is given
+        logs = dict(print_periodicity=pp, path=tempfile.mkdtemp(prefix="c05_logs_"), overwrite_logs_folder=True)
     try:
-        with core.quiet():
-            model.fit(data, "mcmc_saem", **kws)
+        with core.quiet(), warnings.catch_warnings():
+            warnings.simplefilter("ignore")
+            if opts.get("second_run"):
+                # ONE algorithm object run twice (as a cross-validation loop does): the second run must follow the schedule
+                # from iteration 1 again; what is judged below is the second run
+                from leaspy.io.data import Dataset
+                dataset = Dataset(data)
+                algo = algorithm_factory(AlgorithmSettings("mcmc_saem", **kws))
+                model.initialize(dataset)
+                algo.run(model, dataset)
+                first = (len(rec_s), len(rec_S))
+                for lst in (rec_s, rec_S, raw_s, raw_S):
+                    del lst[:]
+                algo.run(model, dataset)
+                if first != (n_iter, n_iter):
+                    chk.impl_failure(case, f"first run: {first[1]} maximisations / {first[0]} statistics for {n_iter} iterations")
+            elif via == "kwargs":
+                model.fit(data, "mcmc_saem", **kws, **logs)
+            else:
+                settings = AlgorithmSettings("mcmc_saem", **kws)
+                if via == "path":
+                    fd, path = tempfile.mkstemp(suffix=".json", prefix="c05_fit_settings_")
+                    os.close(fd)
+                    try:
+                        settings.save(path)
+                        model.fit(data, algorithm_settings_path=path)
+                    finally:
+                        os.unlink(path)
+                else:
+                    if pp:
+                        settings.set_logs(**logs)
+                    model.fit(data, algorithm_settings=settings)
     except Exception as e:  # noqa
         chk.impl_failure(case, f"valid fit configuration aborted: {type(e).__name__}: {e}")
         return
+    finally:
+        if logs:
+            import shutil
+            shutil.rmtree(logs["path"], ignore_errors=True)
     nb = count if count is not None else int(frac * n_iter)
     fails = []
     if len(rec_S) != n_iter or len(rec_s) != n_iter:
@@ -332,14 +549,18 @@ def real_fit_case(env, chk, model_name, n_iter, count, frac, power, seed):
                 fails.append(f"iteration {k}: burn_in flag {flag} but memory-less phase is k<={nb}")
             for key in s:
                 if k <= nb + 1:
-                    if not torch.equal(S[key], s[key]):
+                    if not (S[key].shape == s[key].shape and bool(((S[key] == s[key]) | (S[key].isnan() & s[key].isnan())).all())):
                         fails.append(f"iteration {k} memory-less (nb={nb}): '{key}' used != current")
                 else:
                     e = float(k - nb) ** (-power)
                     want = (1 - e) * prev[key] + e * s[key]
                     tol = 4e-6 * (want.abs() + prev[key].abs() + s[key].abs()) + 1e-30
-                    if not bool(((S[key] - want).abs() <= tol).all()):
-                        fails.append(f"iteration {k} (nb={nb}): '{key}' is not (1-e)S_prev + e*s, max dev {float((S[key]-want).abs().max()):.3g}")
+                    fin = torch.isfinite(want)
+                    # finite entries: float32 envelope; non-finite ones (inf deltas, nan) must be the same non-finite value
+                    ok_fin = bool(((S[key] - want).abs() <= tol)[fin].all())
+                    ok_nonfin = bool(((S[key] == want) | (S[key].isnan() & want.isnan()))[~fin].all())
+                    if not (ok_fin and ok_nonfin and S[key].shape == want.shape):
+                        fails.append(f"iteration {k} (nb={nb}): '{key}' is not (1-e)S_prev + e*s, max dev {float((S[key]-want).abs()[fin].max()) if bool(fin.any()) else float('nan'):.3g}")
             prev = S
         # model comparison on the scalar statistic 'nll_tot' and first coordinate of each key
         for key in sorted(rec_s[0]):
@@ -363,27 +584,82 @@ def real_fit_case(env, chk, model_name, n_iter, count, frac, power, seed):
                 if abs(a - b) > 2e-6 * scale * (1 + max(0, k - nb)):
                     chk.disagree(case, a, b, f"statistics '{key}' at iteration {k+1} (float32 envelope)")
                     break
-        # every entry of every key, bitwise, in the dtype and operation order of the code (float32 tensors, double step)
-        dts = {dt for d in raw_s + raw_S for _, _, dt in d}
-        finite = all(bool(torch.isfinite(v).all()) for d in raw_s for _, v, _ in d)
-        if dts == {"torch.float32"} and finite:
-            seq = [[(k, v.double().reshape(-1).tolist()) for k, v, _ in d] for d in raw_s]
-            resp = chk.model([dict_line(nb, float(power), "f32", seq)])[0]
-            impl = dict_impl_string({"calls": [([(k, v.double().reshape(-1).tolist(), None, None) for k, v, _ in d], fl)
+        # every entry of every key, bitwise, in the dtype and operation order of the code (float32 / float64 tensors, double step).
+        # The update is key-wise, so a run whose keys have different dtypes (joint, mixture models) is compared dtype by dtype;
+        # non-finite entries included (NaN canonical).
+        key_dt = {}
+        for d in raw_s + raw_S:
+            for k, _, dt in d:
+                key_dt.setdefault(k, set()).add(dt)
+        for dt_name, dt_code in (("torch.float32", "f32"), ("torch.float64", "f64")):
+            keys = {k for k, dts_k in key_dt.items() if dts_k == {dt_name}}
+            if not keys:
+                continue
+            seq = [[(k, v.double().reshape(-1).tolist()) for k, v, _ in d if k in keys] for d in raw_s]
+            resp = chk.model([dict_line(nb, float(power), dt_code, seq)])[0]
+            impl = dict_impl_string({"calls": [([(k, v.double().reshape(-1).tolist(), None, None) for k, v, _ in d if k in keys], fl)
                                                for d, (_, fl) in zip(raw_S, rec_S)], "err": "none"})
             if impl != resp:
                 a, b = impl.split(" ")[0][2:].split(";"), resp.split(" ")[0][2:].split(";")
                 where = next((i + 1 for i, (x, y) in enumerate(zip(a, b)) if x != y), "?")
-                chk.disagree(case, impl[:300], resp[:300], f"real fit: statistics handed to update_parameters, bitwise float32, first difference at iteration {where}")
-                chk.impl_failure(case, f"real fit: at iteration {where} (nb={nb}, power={power}) the float32 statistics handed to the maximisation "
-                                       "are not those of the schedule (memory-less copy, then kept*(1-e)+e*new with the double step cast to float32)")
-            chk.tag("real_fit_exact", "compared")
-        else:
-            chk.tag("real_fit_exact", "skipped: " + ("non-finite" if not finite else ",".join(sorted(dts))))
+                chk.disagree(case, impl[:300], resp[:300], f"real fit: statistics handed to update_parameters, bitwise {dt_name}, first difference at iteration {where}")
+                chk.impl_failure(case, f"real fit: at iteration {where} (nb={nb}, power={power}) the {dt_name} statistics handed to the maximisation "
+                                       "are not those of the schedule (memory-less copy, then kept*(1-e)+e*new with the double step cast to the tensors' dtype)")
+            finite = all(bool(torch.isfinite(v).all()) for d in raw_s for k, v, _ in d if k in keys)
+            chk.tag("real_fit_exact", "compared" + ("" if dt_name == "torch.float32" else "-float64") + ("" if finite else "-with-non-finite-entries"))
+        other = sorted(k for k, dts_k in key_dt.items() if dts_k not in ({"torch.float32"}, {"torch.float64"}))
+        if other:
+            chk.tag("real_fit_exact", "skipped keys of changing / other dtype: " + ",".join(other))
     for f in fails[:3]:
         chk.impl_failure(case, f)
-    chk.case(("fit", model_name, n_iter, count, frac, power, seed), nontrivial=(nb + 2 <= n_iter),
-             sample=case if seed == 0 else None, tags={"kind": "real-fit", "model": model_name})
+    chk.case(("fit", model_name, n_iter, count, frac, power, seed, repr(sorted(opts.items()))), nontrivial=(nb + 2 <= n_iter),
+             sample=case if seed == 0 else None, tags={"kind": "real-fit", "model": model_name, "fit_via": via,
+                                                        "fit_options": ",".join(sorted(k for k in opts if k != "via")) or "none"})
+
+
+def history_items(chk):
+    """(case, second-run statistics, checkpoint): random configurations whose algorithm object is (a) replaced half-way by a deep
+    copy / a pickle round trip of itself and (b) used for a second run on other statistics."""
+    rng = chk.rng
+    items = []
+    for _ in range(100 if chk.tier == "thorough" else 30):
+        n = rng.randrange(3, 40)
+        if rng.random() < 0.6:
+            c = (n, rng.randrange(0, n + 1), None, rng.choice([0.51, 0.6, 0.8, 1.0]), gen_stats(rng, n, 2))
+        else:
+            c = (n, None, rng.choice(FRACS), rng.choice([0.51, 0.8, 1.0]), gen_stats(rng, n, 2))
+        copy_at = (rng.randrange(1, n + 1), rng.choice(["deepcopy", "pickle"])) if rng.random() < 0.6 else None
+        items.append((c, gen_stats(rng, n, 2), copy_at))
+    return items
+
+
+def check_histories(chk, env, items, kind):
+    """stub runs with a second run of the same object and / or a checkpoint copy; predicate on both runs, both compared with the model"""
+    cases, results, cases2, results2 = [], [], [], []
+    for c, second, copy_at in items:
+        n_iter, count, frac, power, seq = c
+        res = run_stub(env, *c, second=second, copy_at=copy_at)
+        cj = case_json(c)
+        if second is not None:
+            cj["second_stats"] = second
+        if copy_at is not None:
+            cj["checkpoint_copy"] = list(copy_at)
+        for f in predicate_failures(n_iter, count, frac, power, seq, res)[:3]:
+            chk.impl_failure(cj, (f"(algorithm object replaced by its {copy_at[1]} before iteration {copy_at[0]}) " if copy_at else "") + f)
+        cases.append(c)
+        results.append(res)
+        if second is not None and res.get("run") == "ok":
+            if "second" not in res:
+                chk.impl_failure(cj, "second run of the same algorithm object did not take place")
+            else:
+                for f in predicate_failures(n_iter, count, frac, power, second, res["second"])[:3]:
+                    chk.impl_failure(cj, "(second run of the same algorithm object) " + f)
+                cases2.append((n_iter, count, frac, power, second))
+                results2.append(res["second"])
+        chk.case((kind, n_iter, count, frac, power, repr(copy_at), len(cases)), nontrivial=(res["ctor"] != "ok" or res.get("nb", 0) + 2 <= n_iter),
+                 tags={"kind": kind, "checkpoint": copy_at[1] if copy_at else "none"})
+    compare_with_model(chk, cases, results)
+    compare_with_model(chk, cases2, results2)
 
 
 def ctor_grid(chk, env):
@@ -444,22 +720,53 @@ def ambient_settings(c):
                 sampler_ind_params=dict(acceptation_history_length=7))
 
 
-def ctor_outcome(env, n_iter, count, frac, power):
-    """Real constructor: ('ok', nb, warned) or (error class, None, None)."""
+def _np_typed(x, np):
+    """the same number as a numpy scalar (what a configuration computed with numpy / read from a DataFrame carries)"""
+    if isinstance(x, bool) or x is None:
+        return x
+    if isinstance(x, int):
+        return np.int64(x) if abs(x) < 2 ** 62 else x
+    if isinstance(x, float):
+        return np.float64(x)
+    return x
+
+
+def ctor_outcome(env, n_iter, count, frac, power, via="kwargs"):
+    """Real constructor: ('ok', nb, warned) or (error class, None, None).
+    via: "kwargs" (keyword arguments of AlgorithmSettings), "json" (the settings saved with `AlgorithmSettings.save` and read back
+    with `AlgorithmSettings.load`: what `fit(..., algorithm_settings_path=...)` does), "numpy" (numbers given as numpy scalars)."""
+    import numbers
+    import os
+    import tempfile
     torch, AlgorithmSettings, algorithm_factory, LAIE = env
     kws = dict(n_iter=n_iter, seed=0, progress_bar=False, burn_in_step_power=power, n_burn_in_iter_frac=frac)
     if count is not None:
         kws["n_burn_in_iter"] = count
     kws.update(ambient_settings((n_iter, count, frac, power)))
+    if via == "numpy":
+        import numpy as np
+        for k in ("n_iter", "burn_in_step_power", "n_burn_in_iter_frac", "n_burn_in_iter"):
+            if k in kws:
+                kws[k] = _np_typed(kws[k], np)
     try:
         with warnings.catch_warnings(record=True) as w:
             warnings.simplefilter("always")
-            algo = algorithm_factory(AlgorithmSettings("mcmc_saem", **kws))
+            settings = AlgorithmSettings("mcmc_saem", **kws)
+            if via == "json":
+                fd, path = tempfile.mkstemp(suffix=".json", prefix="c05_settings_")
+                os.close(fd)
+                try:
+                    with core.quiet():
+                        settings.save(path)
+                        settings = AlgorithmSettings.load(path)
+                finally:
+                    os.unlink(path)
+            algo = algorithm_factory(settings)
         nb = algo.algo_parameters["n_burn_in_iter"]
-        if type(nb) is not int:
+        if type(nb) is not int and not (via == "numpy" and count is not None and isinstance(nb, numbers.Integral)):
             return (f"err:other:nb-of-type-{type(nb).__name__}", None, None)
         # only the deprecation of the explicit burn-in count is this property's matter (annealing has its own)
-        return ("ok", nb, any(issubclass(x.category, FutureWarning) and "`n_burn_in_iter` setting" in str(x.message) for x in w))
+        return ("ok", int(nb), any(issubclass(x.category, FutureWarning) and "`n_burn_in_iter` setting" in str(x.message) for x in w))
     except Exception as e:  # noqa
         return (err_class(e, LAIE), None, None)
 
@@ -571,33 +878,113 @@ def ctor_cases(chk):
     return cases
 
 
-def ctor_check(chk, env, cases):
-    outs = [ctor_outcome(env, *c) for c in cases]
+def ctor_check(chk, env, cases, via="kwargs"):
+    outs = [ctor_outcome(env, *c, via=via) for c in cases]
     resp = chk.model([ctor_line(*c) for c in cases])
     by_n = {}
     for c, out, m in zip(cases, outs, resp):
         n_iter, count, frac, power = c
         cj = ctor_case_json(c)
+        if via != "kwargs":
+            cj["via"] = via
         fails, _ = ctor_predicate(c, out)
         for f in fails:
             chk.impl_failure(cj, f)
         impl = (f"nb={out[1]} warn={1 if out[2] else 0}" if out[0] == "ok" else out[0])
         if impl != m:
             chk.disagree(cj, impl, m, "constructor outcome / length of the memory-less phase / deprecation warning")
-        if out[0] == "ok" and count is None and power == 0.8 and n_iter >= 0:
+        if out[0] == "ok" and count is None and power == 0.8 and n_iter >= 0 and isinstance(frac, (int, float)) and frac == frac:
             by_n.setdefault(n_iter, []).append((frac, out[1]))
-        chk.case(("ctorx", n_iter, count, repr(frac), repr(power)), nontrivial=(out[0] != "ok" or count is None),
+        chk.case(("ctorx", n_iter, count, repr(frac), repr(power)) + (() if via == "kwargs" else (via,)),
+                 nontrivial=(out[0] != "ok" or count is None),
                  sample=cj if (len(chk.samples) < 5 and frac is not None and frac < 0) else None,
-                 tags={"kind": "ctor", "ctor": out[0]})
+                 tags={"kind": "ctor", "ctor": out[0]} if via == "kwargs" else {"kind": "ctor-" + via, "ctor": out[0]})
     # monotone in the fraction (same n_iter >= 0)
     for n, lst in by_n.items():
         lst.sort()
         for (f1, b1), (f2, b2) in zip(lst, lst[1:]):
             if b2 < b1:
                 chk.impl_failure({"kind": "ctorx", "n_iter": n, "n_burn_in_iter": None, "n_burn_in_iter_frac": f2,
-                                  "burn_in_step_power": 0.8, "compare_with_fraction": f1},
+                                  "burn_in_step_power": 0.8, "compare_with_fraction": f1, **({} if via == "kwargs" else {"via": via})},
                                  f"memory-less length not monotone in the fraction: {f1!r}->{b1} but {f2!r}->{b2} (n_iter={n})")
                 break
+
+
+def reuse_check(chk, env):
+    """ONE `AlgorithmSettings` object used for a whole series of algorithms (as a grid search over `n_iter` does: the settings'
+    parameters are edited in place between two uses). Every algorithm must derive its memory-less length from what the settings
+    say when it is built — nothing an earlier algorithm derived may stick to the settings — and the algorithms built earlier
+    keep their own length."""
+    torch, AlgorithmSettings, algorithm_factory, LAIE = env
+    rng = chk.rng
+    for rep in range(6 if chk.tier == "thorough" else 2):
+        with warnings.catch_warnings():
+            warnings.simplefilter("ignore")
+            settings = AlgorithmSettings("mcmc_saem", seed=0, progress_bar=False, n_iter=rng.randrange(20, 300))
+        frac, count = 0.9, None          # the defaults
+        built, history, lines = [], [], []
+        for step in range(14):
+            r = rng.random()
+            if r < 0.55:
+                settings.parameters["n_iter"] = rng.choice([rng.randrange(1, 300), 100, 50, 29, 1000])
+            elif r < 0.8:
+                frac = rng.choice(FRACS + [0.29, 0.57, 1 / 3])
+                settings.parameters["n_burn_in_iter_frac"] = frac
+            elif r < 0.9:
+                count, frac = rng.randrange(0, 40), None
+                settings.parameters["n_burn_in_iter"], settings.parameters["n_burn_in_iter_frac"] = count, None
+            else:
+                count, frac = None, rng.choice(FRACS)
+                settings.parameters["n_burn_in_iter"], settings.parameters["n_burn_in_iter_frac"] = None, frac
+            n_iter = settings.parameters["n_iter"]
+            # the step power edited in place as well (a sweep over powers): a power outside (0.5, 1] is refused when the
+            # algorithm is BUILT, whatever the settings object looked like when it was created
+            power = rng.choice([0.8, 0.8, 0.6, 1.0, 0.51, 0.3, 0.5, 1.2, 0.0, float("nan")])
+            settings.parameters["burn_in_step_power"] = power
+            history.append({"n_iter": n_iter, "n_burn_in_iter": count, "n_burn_in_iter_frac": frac, "burn_in_step_power": power})
+            cj = {"kind": "reuse", "settings_history": list(history)}
+            if not (0.5 < power <= 1.0):
+                try:
+                    with warnings.catch_warnings():
+                        warnings.simplefilter("ignore")
+                        algorithm_factory(settings)
+                    chk.impl_failure(cj, f"step power {power!r} (outside (0.5, 1]) written into an existing settings object is accepted "
+                                         "when the algorithm is built")
+                except Exception as e:  # noqa
+                    if err_class(e, LAIE) != "err:algo":
+                        chk.impl_failure(cj, f"step power {power!r} refused with {err_class(e, LAIE)}, documented: algorithm-input error")
+                chk.case(("reuse-power", rep, step, repr(power)), nontrivial=True, tags={"kind": "settings-reuse-power"})
+                settings.parameters["burn_in_step_power"] = 0.8
+                history[-1]["burn_in_step_power_restored"] = 0.8
+            try:
+                with warnings.catch_warnings():
+                    warnings.simplefilter("ignore")
+                    algo = algorithm_factory(settings)
+                nb = algo.algo_parameters["n_burn_in_iter"]
+            except Exception as e:  # noqa
+                chk.impl_failure(cj, f"valid configuration refused when the settings object is used for the {step+1}-th time: {err_class(e, LAIE)}")
+                chk.case(("reuse", rep, step), nontrivial=True, tags={"kind": "settings-reuse"})
+                continue
+            want = count if count is not None else int(frac * n_iter)
+            if nb != want:
+                chk.impl_failure(cj, f"settings object used for the {step+1}-th time (n_iter={n_iter}, count={count}, fraction={frac}): "
+                                     f"memory-less length {nb}, configured {want}")
+            if settings.parameters.get("n_burn_in_iter") != count:
+                chk.impl_failure(cj, f"building the algorithm wrote n_burn_in_iter={settings.parameters.get('n_burn_in_iter')!r} into the "
+                                     f"caller's settings (was {count!r}): the next algorithm built from them takes it as an explicit count")
+                settings.parameters["n_burn_in_iter"] = count
+            built.append((algo, nb))
+            lines.append((cj, nb, f"nburn niter={n_iter} count={'none' if count is None else count} frac={'none' if frac is None else fmt_float(frac)}"))
+            chk.case(("reuse", rep, step, n_iter, count, frac), nontrivial=True, tags={"kind": "settings-reuse"})
+        for i, (algo, nb) in enumerate(built):
+            if algo.algo_parameters["n_burn_in_iter"] != nb:
+                chk.impl_failure({"kind": "reuse", "settings_history": history},
+                                 f"the algorithm built at step {i+1} had a memory-less length of {nb}; after later edits of the settings "
+                                 f"object it has {algo.algo_parameters['n_burn_in_iter']}")
+        out = chk.model([l for _, _, l in lines])
+        for (cj, nb, _), resp in zip(lines, out):
+            if resp != f"nb={nb}":
+                chk.disagree(cj, nb, resp, "length of memory-less phase (settings object reused)")
 
 
 # ------------------------------------------------------------------ unrolled weights
@@ -751,7 +1138,8 @@ def dict_predicate(nb, power, dtype, seq, res):
         if flag != (k <= nb):
             fails.append(f"iteration {k}: burn_in flag {flag}, memory-less phase is k<={nb}")
         if k <= nb + 1:
-            if S != [(key, list(map(float, v))) for key, v in s]:
+            cur = [(key, list(map(float, v))) for key, v in s]
+            if [key for key, _ in S] != [key for key, _ in cur] or not all(same_list(a, b) for (_, a), (_, b) in zip(S, cur)):
                 fails.append(f"iteration {k} (memory-less, nb={nb}): statistics used differ from the current ones")
         else:
             if [key for key, _ in S] != [key for key, _ in prev]:
@@ -766,9 +1154,18 @@ def dict_predicate(nb, power, dtype, seq, res):
                 if len(pv) != len(snew[key]) and 1 not in (len(pv), len(snew[key])):
                     fails.append(f"iteration {k}: key '{key}' kept length {len(pv)} vs new length {len(snew[key])} cannot be combined entry-wise but the update went through")
                     break
-                want = np.asarray(pv, dtype=np.float64) * (1 - e) + e * np.asarray(snew[key], dtype=np.float64)
-                got = np.asarray(v, dtype=np.float64)
-                if got.shape != want.shape or not np.all(np.abs(got - want) <= tol * (np.abs(want) + np.abs(np.asarray(pv, dtype=np.float64)).max(initial=0) + np.abs(np.asarray(snew[key], dtype=np.float64)).max(initial=0)) + 1e-300):
+                with np.errstate(all="ignore"):
+                    a_old, a_new = np.asarray(pv, dtype=np.float64), np.asarray(snew[key], dtype=np.float64)
+                    want = a_old * (1 - e) + e * a_new
+                    got = np.asarray(v, dtype=np.float64)
+                    fin = np.isfinite(want)
+                    mag = lambda a: np.abs(np.where(np.isfinite(a), a, 0.0)).max(initial=0)   # noqa: E731  (finite entries only)
+                    ok = got.shape == want.shape
+                    if ok:
+                        bound = tol * (np.abs(np.where(fin, want, 0.0)) + mag(a_old) + mag(a_new)) + 1e-300
+                        # finite entries within the dtype envelope; non-finite ones (inf kept, inf - inf = nan) identical
+                        ok = bool(np.all((np.abs(got - want) <= bound)[fin])) and bool(np.all(((got == want) | (np.isnan(got) & np.isnan(want)))[~fin]))
+                if not ok:
                     fails.append(f"iteration {k} (nb={nb}, power={power}): key '{key}' is not (1-e)*kept['{key}'] + e*new['{key}'] entry-wise: {v} vs {want.tolist()}")
                     break
         prev = S
@@ -777,15 +1174,17 @@ def dict_predicate(nb, power, dtype, seq, res):
     return fails, False
 
 
-def gen_value(rng, torch, dtype):
+def gen_value(rng, torch, dtype, nonfinite=0.0):
     r = rng.random()
+    if nonfinite and rng.random() < nonfinite:
+        return rng.choice([INF, -INF, NAN, INF])
     x = rng.gauss(0, 1) * rng.choice([1, 1, 1, 100.0, 1e-3]) if r < 0.8 else float(rng.randrange(-8, 9))
     if dtype == "f32":
         x = float(torch.tensor(x, dtype=torch.float32))
     return x
 
 
-def gen_dict_seq(rng, torch, n, dtype, mutate):
+def gen_dict_seq(rng, torch, n, dtype, mutate, nonfinite=0.0):
     keys = rng.sample(["a", "b", "c"], rng.randrange(1, 4))
     lens = {k: rng.choice([1, 1, 2, 3, 4]) for k in keys}
     seq = []
@@ -807,7 +1206,7 @@ def gen_dict_seq(rng, torch, n, dtype, mutate):
                 ls[k] = ls[k] + 1
             elif m == "len0" and ks:
                 ls[rng.choice(ks)] = 0
-        seq.append([(k, [gen_value(rng, torch, dtype) for _ in range(ls[k])]) for k in ks])
+        seq.append([(k, [gen_value(rng, torch, dtype, nonfinite) for _ in range(ls[k])]) for k in ks])
     return seq
 
 
@@ -834,6 +1233,12 @@ def dict_cases(chk, env):
         dtype = rng.choice(["f32", "f32", "f64"])
         nb = rng.choice([rng.randrange(0, n + 1), rng.randrange(0, n + 1), rng.randrange(-2, n + 3)])
         cases.append((nb, rng.choice([0.51, 0.6, 0.75, 0.8, 0.9, 1.0]), dtype, gen_dict_seq(rng, torch, n, dtype, mutate=(i % 2 == 1))))
+    # consistent dictionaries with non-finite entries (`inf` deltas are kept on purpose by the update; the reset iteration must
+    # hand over the current statistics whatever the kept ones are), both dtypes
+    for i in range(120 if chk.tier == "thorough" else 30):
+        n = rng.randrange(2, 14)
+        dtype = rng.choice(["f32", "f64"])
+        cases.append((rng.randrange(0, n + 1), rng.choice([0.51, 0.8, 1.0]), dtype, gen_dict_seq(rng, torch, n, dtype, mutate=False, nonfinite=0.15)))
     return cases
 
 
@@ -882,6 +1287,19 @@ def f27_probe(chk, env):
                                                 f"({out[0]}, n_burn_in_iter={out[1]})")
 
 
+def load_parameters_observation(chk, env):
+    """Recorded, not judged: what `load_parameters` does to the other settings of the schedule after construction."""
+    torch, AlgorithmSettings, algorithm_factory, LAIE = env
+    try:
+        with core.quiet(), warnings.catch_warnings():
+            warnings.simplefilter("ignore")
+            algo = algorithm_factory(AlgorithmSettings("mcmc_saem", n_iter=100, seed=0, progress_bar=False))
+            algo.load_parameters({"n_iter": 50})
+        chk.tag("n_iter_loaded_after_construction", f"n_burn_in_iter stays {algo.algo_parameters['n_burn_in_iter']} for n_iter=50")
+    except Exception as e:  # noqa
+        chk.tag("n_iter_loaded_after_construction", f"raised {type(e).__name__}")
+
+
 def run(chk: core.Check):
     env = _imports()
     chk.rule = ("stub: real algorithm object driven over every (n_iter<=N, explicit count 0..n+1) and (n_iter, fraction in a "
@@ -894,6 +1312,14 @@ def run(chk: core.Check):
                 "of tensor lengths 0..3 to 3 iterations, random consistent and mutated dictionaries in float32 and float64, "
                 "compared bitwise (values, key order, flags, exception) with Saem.runD; "
                 "real fits: recorded s_k/S_k of short fits, every entry of every key bitwise (float32) against Saem.runD. "
+                "hardening: statistics with inf / -inf / nan entries around the end of the memory-less phase (stub and dict runs); "
+                "the same algorithm object used for a second run, and replaced half-way by its deepcopy / pickle; phases with memory "
+                "of 3e3..2.5e4 iterations and sparse drives up to iteration 1e7 (steps down to 1e-7); the phase the algorithm reports "
+                "about itself; constructor cases also through a settings file (save/load) and with numpy scalars; one settings "
+                "object edited in place and used for a series of algorithms; real fits of seven model kinds (univariate, joint, "
+                "shared-speed, mixture), through `fit(algorithm_settings=)` / `fit(algorithm_settings_path=)`, with annealing longer "
+                "than the memory-less phase, with the printing output manager, with one algorithm object run twice; statistics of "
+                "mixed dtypes compared bitwise dtype by dtype (float32 and float64), non-finite entries included. "
                 "A case is non-trivial when it contains at least one iteration with "
                 "memory (nb+2 <= n_iter), is a refused configuration, derives the length from a fraction, or aborts; distinct by full configuration.")
     cases = core.load_corpus(PROP)
@@ -929,9 +1355,26 @@ def run(chk: core.Check):
         reresults.append(res)
         chk.case(("reconf", n, N, how, c0[2], c0[3]), nontrivial=(N + 2 <= n), tags={"kind": "stub-reconfigured", "how": how})
     compare_with_model(chk, recases, reresults)
+    # non-finite statistics (inf deltas, nan) around the end of the memory-less phase + a second run of the same object
+    check_histories(chk, env, [(c, second, None) for c, second in nonfinite_cases(chk)], "stub-nonfinite")
+    # the algorithm object check-pointed (deepcopy / pickle) half-way, then used for a second run
+    check_histories(chk, env, history_items(chk), "stub-history")
+    # long phases with memory (thousands of averaged iterations), and sparse drives up to iteration 1e7
+    check_histories(chk, env, [(c, None, None) for c in long_cases(chk)], "stub-long")
+    for jc in jump_cases(chk):
+        jump_case(chk, env, *jc)
     ctor_grid(chk, env)
     # the whole accepted domain of the constructor (signed, special fractions, both given, order of the refusals)
-    ctor_check(chk, env, ctor_cases(chk))
+    cc = ctor_cases(chk)
+    ctor_check(chk, env, cc)
+    # the same through other entry points: settings written to a file and read back; numbers given as numpy scalars
+    k_alt = 700 if chk.tier == "thorough" else 220
+    table = [c for c in cc if c[1] is not None or c[2] is None or isinstance(c[2], (bool, int))]    # count given / no fraction / integer-typed fraction
+    rest = [c for c in cc if not (c[1] is not None or c[2] is None or isinstance(c[2], (bool, int)))]
+    for via in ("json", "numpy"):
+        ctor_check(chk, env, chk.rng.sample(table, min(k_alt, len(table))) + chk.rng.sample(rest, min(k_alt, len(rest))), via=via)
+    # one settings object edited in place and used for a series of algorithms
+    reuse_check(chk, env)
     # unrolled weights through the real algorithm object
     weights_check(chk, env)
     # dictionaries of tensors: keys, order, shapes, dtype, exceptions
@@ -949,6 +1392,17 @@ def run(chk: core.Check):
     ]
     # real fits
     fits = [("logistic", 8, None, 0.5, 0.8, 0), ("linear", 7, 2, None, 1.0, 1), ("logistic_scalar", 9, None, 0.29, 0.51, 2)]
+    # other model kinds, other entry points of `fit`, and features that are each tested elsewhere on their own: annealing longer
+    # than the memory-less phase, the output manager printing the algorithm
+    anneal = dict(do_annealing=True, initial_temperature=4, n_plateau=3, n_iter=8, n_iter_frac=None)
+    fits += [("univariate", 8, 2, None, 0.8, 3, dict(via="settings", print_periodicity=3)),
+             ("joint", 7, None, 0.3, 1.0, 4, dict(via="path")),
+             ("logistic", 10, 3, None, 0.8, 5, dict(annealing=anneal)),
+             ("shared_speed", 8, 0, None, 0.51, 6, dict(print_periodicity=2)),
+             ("mixture", 8, None, 0.5, 0.8, 7, {}),
+             ("linear", 9, 4, None, 0.8, 8, dict(second_run=True))]
+    # (not generated: an ambient float64 default dtype — a fit then aborts inside the model's own tensor algebra,
+    #  "expected m1 and m2 to have the same dtype", before any statistic exists; not this property's matter)
     if chk.tier == "thorough":
         rng = chk.rng
         for i in range(24):
@@ -957,8 +1411,23 @@ def run(chk: core.Check):
                 fits.append((rng.choice(["logistic", "linear", "logistic_scalar"]), n, rng.randrange(0, n + 1), None, rng.choice([0.51, 0.8, 1.0]), 10 + i))
             else:
                 fits.append((rng.choice(["logistic", "linear", "logistic_scalar"]), n, None, rng.choice(FRACS), rng.choice([0.51, 0.8, 1.0]), 10 + i))
+        for i in range(16):
+            n = rng.randrange(5, 20)
+            opts = {}
+            if rng.random() < 0.4:
+                P = rng.choice([2, 3, 4])
+                opts["annealing"] = dict(do_annealing=True, initial_temperature=rng.choice([2, 5, 10]), n_plateau=P,
+                                         n_iter=rng.randrange(P - 1, n + 2), n_iter_frac=None)
+            if rng.random() < 0.3:
+                opts["print_periodicity"] = rng.randrange(1, 5)
+            opts["via"] = rng.choice(["kwargs", "settings", "path"])
+            if rng.random() < 0.25:
+                opts = dict(second_run=True, **({"annealing": opts["annealing"]} if "annealing" in opts else {}))
+            cnt, fr = (rng.randrange(0, n + 1), None) if rng.random() < 0.5 else (None, rng.choice(FRACS))
+            fits.append((rng.choice(sorted(REAL_KINDS)), n, cnt, fr, rng.choice([0.51, 0.8, 1.0]), 40 + i, opts))
     for f in fits:
         real_fit_case(env, chk, *f)
+    load_parameters_observation(chk, env)
     chk.exhaustive = False
 
 
@@ -970,14 +1439,41 @@ def replay(chk: core.Check, payload):
         return
     if case.get("kind") == "fit":
         real_fit_case(env, chk, case["model"], case["n_iter"], case["n_burn_in_iter"], case["n_burn_in_iter_frac"],
-                      case["burn_in_step_power"], case["seed"])
+                      case["burn_in_step_power"], case["seed"], case.get("opts"))
         return
     if case.get("kind") == "ctorx":
         c = (case["n_iter"], case["n_burn_in_iter"], _unrepr(case["n_burn_in_iter_frac"]), _unrepr(case["burn_in_step_power"]))
         cs = [c]
         if "compare_with_fraction" in case:
             cs.append((c[0], c[1], case["compare_with_fraction"], c[3]))
-        ctor_check(chk, env, cs)
+        ctor_check(chk, env, cs, via=case.get("via", "kwargs"))
+        return
+    if case.get("kind") == "jump":
+        jump_case(chk, env, case["n_iter"], case["n_burn_in_iter"], case["burn_in_step_power"], case["iterations"], case["stats"])
+        return
+    if case.get("kind") == "reuse":
+        # the series of uses of one settings object, replayed literally
+        torch, AlgorithmSettings, algorithm_factory, LAIE = env
+        with warnings.catch_warnings():
+            warnings.simplefilter("ignore")
+            settings = AlgorithmSettings("mcmc_saem", seed=0, progress_bar=False)
+            for i, h in enumerate(case["settings_history"]):
+                settings.parameters.update(n_iter=h["n_iter"], n_burn_in_iter=h["n_burn_in_iter"], n_burn_in_iter_frac=h["n_burn_in_iter_frac"])
+                try:
+                    nb = algorithm_factory(settings).algo_parameters["n_burn_in_iter"]
+                except Exception as e:  # noqa
+                    nb = err_class(e, LAIE)
+                want = h["n_burn_in_iter"] if h["n_burn_in_iter"] is not None else int(h["n_burn_in_iter_frac"] * h["n_iter"])
+                if nb != want or settings.parameters.get("n_burn_in_iter") != h["n_burn_in_iter"]:
+                    chk.impl_failure(case, f"use {i+1} of the settings object: memory-less length {nb}, configured {want}; "
+                                           f"settings now carry n_burn_in_iter={settings.parameters.get('n_burn_in_iter')!r}")
+                    break
+        chk.case(("reuse", len(case["settings_history"])), sample=case)
+        return
+    if case.get("kind") == "stub" and ("second_stats" in case or "checkpoint_copy" in case):
+        c = (case["n_iter"], case["n_burn_in_iter"], case["n_burn_in_iter_frac"], case["burn_in_step_power"], case["stats"])
+        cp = case.get("checkpoint_copy")
+        check_histories(chk, env, [(c, case.get("second_stats"), tuple(cp) if cp else None)], "stub-history")
         return
     if case.get("kind") == "weights":
         r = weights_case(chk, env, case["n_iter"], case["n_burn_in_iter"], case["burn_in_step_power"])
